@@ -372,13 +372,13 @@ class RDGridSpace :
         if y<self.h-1 : neighbors.append(self.get_cell_index((x, y+1, z)))
         if z<self.d-1 : neighbors.append(self.get_cell_index((x, y, z+1)))
         
-        if self._boundary_conditions["x"]=="periodical" and x == 0: neighbors.append(self.get_cell_index((self.w-1, y, z)))
-        if self._boundary_conditions["y"]=="periodical" and y == 0: neighbors.append(self.get_cell_index((x, self.h-1, z)))
-        if self._boundary_conditions["z"]=="periodical" and z == 0: neighbors.append(self.get_cell_index((x, y, self.d-1)))
+        if self._boundary_conditions["x"]=="periodical" and self.w>1 and x == 0: neighbors.append(self.get_cell_index((self.w-1, y, z)))
+        if self._boundary_conditions["y"]=="periodical" and self.h>1 and y == 0: neighbors.append(self.get_cell_index((x, self.h-1, z)))
+        if self._boundary_conditions["z"]=="periodical" and self.d>1 and z == 0: neighbors.append(self.get_cell_index((x, y, self.d-1)))
         
-        if self._boundary_conditions["x"]=="periodical" and x == self.w-1: neighbors.append(self.get_cell_index((0, y, z)))
-        if self._boundary_conditions["y"]=="periodical" and y == self.h-1: neighbors.append(self.get_cell_index((x, 0, z)))
-        if self._boundary_conditions["z"]=="periodical" and z == self.d-1: neighbors.append(self.get_cell_index((x, y, 0)))
+        if self._boundary_conditions["x"]=="periodical" and self.w>1 and x == self.w-1: neighbors.append(self.get_cell_index((0, y, z)))
+        if self._boundary_conditions["y"]=="periodical" and self.h>1 and y == self.h-1: neighbors.append(self.get_cell_index((x, 0, z)))
+        if self._boundary_conditions["z"]=="periodical" and self.d>1 and z == self.d-1: neighbors.append(self.get_cell_index((x, y, 0)))
         
         return neighbors
         
